@@ -329,9 +329,6 @@ theorem C03_tags :
       "list_of_arrays", "tuple_of_strings", "list_of_strings"].all (fun t => EmdGen.mdWriterTags.contains t)) = true := by
   decide
 
-theorem C03_translator_tie :
-    (["mdWriterTags", "mdReaderTags"].all (fun n => !EmdGen.unavailable.contains n)) = true := by decide
-
 -- non-vacuity: a dictionary using every documented kind, nested three deep
 def exMd : List (String × PyVal) :=
   [("n", .none), ("b", .bool true), ("i", .num "int" "-3"), ("f", .num "float" "7ff8000000000000"),
